@@ -156,7 +156,8 @@ class ThrRun(sbx.SbxRun):
                           'deadlock': s.deadlock, 'diverged': s.diverged, 'clock_jumps': s.clock_jumps,
                           'probe': dict(s.probe),
                           'thread_states': [(t.index, t.state, t.events, t.blocked_on) for t in s.threads],
-                          'thread_born': {t.index: t.op_born for t in s.threads}}}
+                          'thread_born': {t.index: t.op_born for t in s.threads},
+                          'thread_done_at': {t.index: (t.done_at - 1_000_000.0 if t.done_at else None) for t in s.threads}}}
 
 
 def execute(spec):
